@@ -3,6 +3,5 @@ CONSTANTS
   Seed = 0
   Multi = FALSE
   Quick = TRUE
-INVARIANT LabelIndependent
-INVARIANT TwinsAmbiguous
+INVARIANT TwinsLabelIndependent
 CHECK_DEADLOCK FALSE
